@@ -236,6 +236,34 @@ class Ctx:
         if not cond:
             raise Violation(what, **details)
 
+    def fresh_result(self, call, first, what):
+        """`first` is what `call()` returned (arrays, or a tuple/list of arrays).  The caller owns it: overwrite every
+        writable array in it, call again with equal arguments, and the second result must equal the first as it was
+        before the overwrite (a result that is a cached or otherwise shared array fails this)."""
+        items = list(first) if isinstance(first, (tuple, list)) else [first]
+        saved = [np.array(x, copy=True) if isinstance(x, np.ndarray) else x for x in items]
+        for x in items:
+            if isinstance(x, np.ndarray) and x.size and x.flags.writeable:
+                if x.dtype.kind in "fc":
+                    x[...] = x * -3.25 + 7.5
+                elif x.dtype.kind in "iu":
+                    x[...] = x // 2 + 1
+                elif x.dtype.kind == "b":
+                    x[...] = ~x
+        try:
+            again = call()
+            again = [np.array(a, copy=True) if isinstance(a, np.ndarray) else a for a in (list(again) if isinstance(again, (tuple, list)) else [again])]
+        finally:
+            for x, b in zip(items, saved):              # hand the caller's arrays back as they were
+                if isinstance(x, np.ndarray) and x.size and x.flags.writeable:
+                    x[...] = b
+        again = list(again) if isinstance(again, (tuple, list)) else [again]
+        for k, (a, b) in enumerate(zip(again, saved)):
+            if isinstance(b, np.ndarray):
+                if not (np.shape(a) == b.shape and np.array_equal(np.asarray(a), b, equal_nan=b.dtype.kind in "fc")):
+                    raise Violation("%s: after the caller overwrote the arrays it got back, an equal call returns a different result (output %d): the returned array is shared hidden state" % (what, k))
+        return again
+
     # -- serialisation for the parent process
     def to_json(self):
         return {
